@@ -150,6 +150,7 @@ type rewriter struct {
 	fname     string
 	nsel      int
 	eager     bool // goroutines of this package are spawned as eager threads (the driver's watcher)
+	doneVars  bool // some file keeps a ctx.Done() channel in a variable
 }
 
 func (r *rewriter) goName() string {
@@ -184,12 +185,30 @@ func (r *rewriter) collectChanNames(f *ast.File) {
 				}
 			}
 			for i, v := range x.Values {
+				if isDoneCall(v) && i < len(x.Names) {
+					// done := ctx.Done() kept in a variable: the channel of a context
+					x.Values[i] = &ast.CallExpr{Fun: vrtSel("DoneChan"), Args: []ast.Expr{doneCtx(v)}}
+					r.chanNames[x.Names[i].Name] = true
+					r.doneVars = true
+					continue
+				}
 				if isMakeChan(v) && i < len(x.Names) {
 					r.chanNames[x.Names[i].Name] = true
 				}
 			}
 		case *ast.AssignStmt:
 			for i, v := range x.Rhs {
+				if isDoneCall(v) && i < len(x.Lhs) {
+					x.Rhs[i] = &ast.CallExpr{Fun: vrtSel("DoneChan"), Args: []ast.Expr{doneCtx(v)}}
+					r.doneVars = true
+					if id, ok := x.Lhs[i].(*ast.Ident); ok {
+						r.chanNames[id.Name] = true
+					}
+					if se, ok := x.Lhs[i].(*ast.SelectorExpr); ok {
+						r.chanNames[se.Sel.Name] = true
+					}
+					continue
+				}
 				if isMakeChan(v) && i < len(x.Lhs) {
 					if id, ok := x.Lhs[i].(*ast.Ident); ok {
 						r.chanNames[id.Name] = true
